@@ -40,6 +40,20 @@ CLAIMS = {
               "symbolic matrix fresh unknowns with A X = I; action values at absorbing states are not constrained (the statement "
               "fixes only their state value); floats as reals"),
         ref='DESIGN.md section 4 C02'),
+    'C05': dict(
+        text=("AStarSearch.plan_on and BreadthFirstSearch.plan_on (incl. from_mdp, path reconstruction, policy construction) are "
+              "executed on digraphs whose every edge cost is a symbolic real >= 0 and whose heuristic values are symbolic and "
+              "constrained only by consistency; heapq runs natively on symbolic keys (each comparison forks), the random stream "
+              "is nondeterministic (all tie-break keys / shuffles). On every path z3 proves: path starts at the initial state, "
+              "follows real transitions under the returned policy, ends at a goal, path_value equals the path's cost and is <= the "
+              "cost of EVERY simple start-goal path of the digraph (finite conjunction, so zero-cost cycles are harmless); BFS: "
+              "minimum number of steps; None exactly when no goal is reachable; all four single-outcome representations."),
+        note=("digraphs from a menu of 11 (quick) / 14 (thorough) skeletons with 2-5 nodes (self-loops, two goals, unreachable "
+              "goal, start=goal, odd cycle, dense); tie_breaking in {lifo,fifo,random} x randomize_action_order (dense4 with "
+              "shuffling only in thorough); successive uniform draws of one generator are assumed pairwise distinct; heuristics: zero "
+              "and arbitrary consistent (symbolic). A defect found by this check (single-entry DictDistribution -> TypeError) "
+              "was repaired in /repo."),
+        ref='DESIGN.md section 4 C05'),
     'C06': dict(
         text=("The real reachable_states / state_list / action_list / transition, reward, action, initial, absorbing arrays and "
               "tables / from_matrices / QuickTabularMDP are executed on MDP definitions whose rewards and initial weights are "
